@@ -73,22 +73,22 @@ macro_rules! agree_arm {
         pub fn $id() { agree(&$order, &$defs) }
     };
 }
-/// @harness id=c05_root_and_near props=C05,C18,C12 unwind=17 mem=10 cap=1500 unwindset=find_inner:3
+/// @harness id=c05_root_and_near props=C05,C18,C12 tier=quick unwind=17 mem=10 cap=1500 unwindset=find_inner:3
 /// C0 and C1 define f (root registered first), requested from U.
 agree_arm!(c05_root_and_near, [C0, C1, U], [C0, C1]);
-/// @harness id=c05_same_file_twice props=C05 unwind=17 mem=10 cap=1500 unwindset=find_inner:3
+/// @harness id=c05_same_file_twice props=C05 tier=thorough unwind=17 mem=10 cap=1500 unwindset=find_inner:3
 /// U defines f twice.
 agree_arm!(c05_same_file_twice, [U], [U, U]);
-/// @harness id=c05_import_vs_sibling props=C05 unwind=17 mem=10 cap=1500 unwindset=find_inner:3
+/// @harness id=c05_import_vs_sibling props=C05 tier=thorough unwind=17 mem=10 cap=1500 unwindset=find_inner:3
 /// S and M define f, C1 (symbolically) imports M.
 agree_arm!(c05_import_vs_sibling, [S, M, C1, U], [S, M]);
-/// @harness id=c05_near_import_vs_root_def props=C05,C18 unwind=17 mem=10 cap=1500 unwindset=find_inner:3
+/// @harness id=c05_near_import_vs_root_def props=C05,C18 tier=thorough unwind=17 mem=10 cap=1500 unwindset=find_inner:3
 /// M (registered first) and the root conftest C0 define f; the nearer conftest C1 (symbolically) imports M.
 agree_arm!(c05_near_import_vs_root_def, [M, C0, C1, U], [M, C0]);
-/// @harness id=c05_plugin_third props=C05,C18 unwind=21 mem=10 cap=1500 unwindset=find_inner:3
+/// @harness id=c05_plugin_third props=C05,C18 tier=quick unwind=21 mem=10 cap=1500 unwindset=find_inner:3
 /// V registered before P; V symbolically also an entry-point plugin.
 agree_arm!(c05_plugin_third, [V, P, U], [V, P]);
-/// @harness id=c05_sibling_only props=C05,C18 unwind=17 mem=10 cap=1500 unwindset=find_inner:3
+/// @harness id=c05_sibling_only props=C05,C18 tier=quick unwind=17 mem=10 cap=1500 unwindset=find_inner:3
 /// only the sibling conftest defines f: no feature may offer it.
 agree_arm!(c05_sibling_only, [S, U], [S]);
 
@@ -141,7 +141,7 @@ macro_rules! pos_arm {
         pub fn $id() { $body }
     };
 }
-/// @harness id=c04_inv_shadowed props=C04 unwind=24 mem=10 cap=1500 gates=worlds
+/// @harness id=c04_inv_shadowed props=C04 tier=thorough unwind=24 mem=10 cap=1500 gates=worlds
 /// f in the sibling S (registered first) and in the root C0; tests in U (binds C0) and T2 (binds S); a test
 /// parameter `z` that is no fixture.
 pos_arm!(c04_inv_shadowed, {
@@ -150,7 +150,7 @@ pos_arm!(c04_inv_shadowed, {
     w.test(U, 8, &["f", "z"]); w.test(T2, 10, &["f"]);
     inverse(w)
 });
-/// @harness id=c04_inv_override props=C04 unwind=24 mem=12 cap=1800 gates=worlds
+/// @harness id=c04_inv_override props=C04 tier=thorough unwind=24 mem=12 cap=1800 gates=worlds
 /// override C1 `f(f)` over C0 `f()`, a test in U; the override's parameter belongs to the parent.
 pos_arm!(c04_inv_override, {
     let mut w = World::new(&[C0, C1, U]);
@@ -159,7 +159,7 @@ pos_arm!(c04_inv_override, {
     inverse(w)
 });
 
-/// @harness id=c04_inv_sibling_first props=C04,C08 unwind=24 mem=12 cap=1800 gates=worlds
+/// @harness id=c04_inv_sibling_first props=C04,C08 tier=thorough unwind=24 mem=12 cap=1800 gates=worlds
 /// C1 defines f; the sibling module M (same directory) uses the inherited f and is registered BEFORE U, which
 /// overrides f locally and uses its own.
 pos_arm!(c04_inv_sibling_first, {
@@ -168,7 +168,7 @@ pos_arm!(c04_inv_sibling_first, {
     w.test(M, 8, &["f"]); w.test(U, 10, &["f"]);
     inverse(w)
 });
-/// @harness id=c04_inv_usage_above_override props=C04,C02 unwind=24 mem=12 cap=1800 gates=worlds
+/// @harness id=c04_inv_usage_above_override props=C04,C02 tier=thorough unwind=24 mem=12 cap=1800 gates=worlds
 /// U: a test using f sits ABOVE the override `def f(f)`; parent f in C0. The override's own parameter belongs to
 /// the parent, the test's parameter to the override.
 pos_arm!(c04_inv_usage_above_override, {
@@ -217,7 +217,7 @@ macro_rules! cli_arm {
         pub fn $id() { $body }
     };
 }
-/// @harness id=c20_unused_basic props=C20,C04 unwind=17 mem=14 cap=2400 unwindset=find_inner:3
+/// @harness id=c20_unused_basic props=C20,C04 tier=thorough unwind=17 mem=14 cap=2400 unwindset=find_inner:3
 /// C0: f (autouse symbolic), g (autouse symbolic); U: test(f). f used, g unused unless autouse.
 cli_arm!(c20_unused_basic, {
     let mut w = World::new(&[C0, U]);
@@ -227,7 +227,7 @@ cli_arm!(c20_unused_basic, {
     w.test(U, 8, &["f"]);
     unused(w)
 });
-/// @harness id=c20_unused_shadowed props=C20,C04 unwind=17 mem=14 cap=2400 unwindset=find_inner:3
+/// @harness id=c20_unused_shadowed props=C20,C04 tier=quick unwind=17 mem=14 cap=2400 unwindset=find_inner:3
 /// f in C1 and C0, a test in U: C1's is used, C0's is unused (shadowed), whatever the registration order.
 cli_arm!(c20_unused_shadowed, {
     let mut w = World::new(&[C0, C1, U]);
@@ -235,7 +235,7 @@ cli_arm!(c20_unused_shadowed, {
     w.test(U, 8, &["f"]);
     unused(w)
 });
-/// @harness id=c20_unused_same_file_twice props=C20,C04 unwind=17 mem=14 cap=2400 unwindset=find_inner:3
+/// @harness id=c20_unused_same_file_twice props=C20,C04 tier=quick unwind=17 mem=14 cap=2400 unwindset=find_inner:3
 /// U defines f twice and uses it once: the first definition is unused, the second used.
 cli_arm!(c20_unused_same_file_twice, {
     let mut w = World::new(&[U]);
@@ -243,7 +243,7 @@ cli_arm!(c20_unused_same_file_twice, {
     w.test(U, 8, &["f"]);
     unused(w)
 });
-/// @harness id=c20_unused_usage_above_override props=C20,C04 unwind=17 mem=14 cap=2400 unwindset=find_inner:3
+/// @harness id=c20_unused_usage_above_override props=C20,C04 tier=thorough unwind=17 mem=14 cap=2400 unwindset=find_inner:3
 /// U: test(f) above the override `def f(f)`; parent f in C0: both are used exactly once, none unused.
 cli_arm!(c20_unused_usage_above_override, {
     let mut w = World::new(&[C0, U]);
@@ -251,7 +251,7 @@ cli_arm!(c20_unused_usage_above_override, {
     w.test(U, 3, &["f"]); w.tests[0].before_defs = true;
     unused(w)
 });
-/// @harness id=c20_unused_same_name_two_files props=C20 unwind=17 mem=14 cap=2400 unwindset=find_inner:3
+/// @harness id=c20_unused_same_name_two_files props=C20 tier=quick unwind=17 mem=14 cap=2400 unwindset=find_inner:3
 /// the same name g unused in two different conftests (C1 and S), f used: both g entries must be listed.
 cli_arm!(c20_unused_same_name_two_files, {
     let mut w = World::new(&[C1, S, U]);
@@ -259,7 +259,7 @@ cli_arm!(c20_unused_same_name_two_files, {
     w.test(U, 10, &["f"]);
     unused(w)
 });
-/// @harness id=c20_unused_third_party props=C20 unwind=21 mem=14 cap=2400 unwindset=find_inner:3
+/// @harness id=c20_unused_third_party props=C20 tier=quick unwind=21 mem=14 cap=2400 unwindset=find_inner:3
 /// V: f (third-party, never listed), C0: g unused.
 cli_arm!(c20_unused_third_party, {
     let mut w = World::new(&[V, C0, U]);
@@ -309,12 +309,12 @@ macro_rules! order_arm {
         pub fn $id() { order_pair(&$a, &$b, &$defs) }
     };
 }
-/// @harness id=c08_ord_levels props=C08 unwind=17 mem=8 cap=1200
+/// @harness id=c08_ord_levels props=C08 tier=quick unwind=17 mem=8 cap=1200
 /// f in C0, C1, S: registration C0,C1,S vs S,C1,C0.
 order_arm!(c08_ord_levels, [C0, C1, S, U], [S, C1, C0, U], [C0, C1, S]);
-/// @harness id=c08_ord_import props=C08 unwind=17 mem=8 cap=1200
+/// @harness id=c08_ord_import props=C08 tier=thorough unwind=17 mem=8 cap=1200
 /// f in S and M, C1 (symbolically) importing M: registration S,M vs M,S.
 order_arm!(c08_ord_import, [S, M, C1, U], [M, S, C1, U], [S, M]);
-/// @harness id=c08_ord_global props=C08 unwind=21 mem=8 cap=1200
+/// @harness id=c08_ord_global props=C08 tier=quick unwind=21 mem=8 cap=1200
 /// f in P and V: registration P,V vs V,P.
 order_arm!(c08_ord_global, [P, V, U], [V, P, U], [P, V]);
